@@ -358,6 +358,9 @@ func runC06(c *Ctx) error {
 	for _, eng := range engines {
 		for a := 0; a <= 2; a++ {
 			for _, lens := range [][2]int{{1, 2}, {2, 3}, {2, 4}, {3, 5}} {
+				if a == 1 && !c.Thorough() {
+					continue
+				}
 				x, y := lens[0], lens[1]
 				u, pre, good, bad := forkUniverse(a, y, x, tsOld)
 				for s := 1; s <= x && s < y; s++ {
@@ -539,6 +542,9 @@ func runC06(c *Ctx) error {
 					for _, e := range []int{1, 3} {
 						for _, loss := range [][]string{{"X1", "R40"}, {"S1", "R20", "T0", "T1", "R40"}} {
 							for _, m := range []int{1, 3} {
+								if !c.Thorough() && ((e == 3 && m == 3) || (cp == 2 && len(loss) > 2 && m == 3)) {
+									continue
+								}
 								first := &nodeSpec{P: 1, Cap: 2000, Chain: seqInts(2, n), Reserve: seqInts(n+2, e)}
 								second := &nodeSpec{P: 2, Cap: cp, Chain: seqInts(2, n), Reserve: seqInts(n+2, e+m+1)}
 								cmds := []string{"C1", "R40", "C2", "R20", fmt.Sprintf("A1.%d.%s", e, kind), "R40"}
